@@ -13,7 +13,6 @@ from typing import Any
 from typing import Tuple
 
 from clikit.api.io import IO
-from clikit.formatter.plain_formatter import PlainFormatter
 from clikit.utils._compat import PY2
 from clikit.utils._compat import PY36
 from clikit.utils._compat import decode
@@ -81,20 +80,8 @@ class Highlighter(object):
         buffer = ""
         current_type = None
         source_io = io.BytesIO(encode(source))
-        formatter = PlainFormatter()
 
-        def readline():
-            line = decode(source_io.readline())
-
-            try:
-                line = formatter.remove_format(line)
-            except ValueError:
-                # Style tags of the source that are not balanced are kept as they are
-                line = line.replace("<", "\\<")
-
-            return encode(line)
-
-        tokens = tokenize.tokenize(readline)
+        tokens = tokenize.tokenize(source_io.readline)
         line = ""
         for token_info in tokens:
             token_type, token_string, start, end, _ = token_info
@@ -105,8 +92,7 @@ class Highlighter(object):
 
             if token_type == tokenize.ENDMARKER:
                 # End of source
-                if current_type is not None:
-                    line += "<{}>{}</>".format(self._theme[current_type], buffer)
+                line += self._highlight(current_type, buffer)
 
                 lines.append(line)
                 break
@@ -116,9 +102,7 @@ class Highlighter(object):
                 if diff > 1:
                     lines += [""] * (diff - 1)
 
-                line += "<{}>{}</>".format(
-                    self._theme[current_type], buffer.rstrip("\n")
-                )
+                line += self._highlight(current_type, buffer.rstrip("\n"))
 
                 # New line
                 lines.append(line)
@@ -151,7 +135,7 @@ class Highlighter(object):
                 buffer += token_info.line[current_col : start[1]]
 
             if current_type != new_type:
-                line += "<{}>{}</>".format(self._theme[current_type], buffer)
+                line += self._highlight(current_type, buffer)
                 buffer = ""
                 current_type = new_type
 
@@ -160,9 +144,7 @@ class Highlighter(object):
                 lines.append(line)
                 token_lines = token_string.split("\n")
                 for token_line in token_lines[1:-1]:
-                    lines.append(
-                        "<{}>{}</>".format(self._theme[current_type], token_line)
-                    )
+                    lines.append(self._highlight(current_type, token_line))
 
                 current_line = end[0]
                 buffer = token_lines[-1][: end[1]]
@@ -174,6 +156,14 @@ class Highlighter(object):
             current_line = lineno
 
         return lines
+
+    def _highlight(self, token_type, text):
+        if token_type is None:
+            # Nothing has been tokenized yet
+            return text
+
+        # The source is text, not markup: the style tags it contains are printed as they are
+        return "<{}>{}</>".format(self._theme[token_type], text.replace("<", "\\<"))
 
     def line_numbers(self, lines, mark_line=None):
         max_line_length = max(3, len(str(len(lines))))
